@@ -429,8 +429,11 @@ def run_harnesses(hs, tier='quick', need_replay=True):
     os.makedirs(os.path.join(OUT, 'cache'), exist_ok=True)
     key = source_key()
     cfile = os.path.join(OUT, 'cache', 'kani-%s-%s.json' % (key, tier))
-    global TIER
+    global TIER, TIMEOUT
     TIER = tier
+    if tier == 'thorough' and 'VERIF_KANI_TIMEOUT' not in os.environ:
+        # the larger enumeration bounds of one module take 5-6 minutes on an idle 16-core machine; leave room for a loaded one
+        TIMEOUT = max(TIMEOUT, 1800)
     cache = {}
     if os.path.exists(cfile) and not os.environ.get('VERIF_NOCACHE'):
         try:
